@@ -17,7 +17,9 @@ RULE = ('after each generated history (all parameter sets incl. fleets and sourc
         'a generic walk over every container reachable from the solar system, its calculator registers, every fit, its '
         'restriction/stat registers, simulator and message broker must find no item, fit, affector spec or projector '
         'and no calculator subscription; removed items are then re-used in a fresh fit and must give from-scratch '
-        '(Lean spec) values; partial removals are covered by the per-step spec comparison. Non-trivial: history whose '
+        '(Lean spec) values; the same walk runs on single-fit histories of the restriction/statistics generator (slot '
+        'index 0, group limits, unloadable types, source switches); partial removals: after reading everything a random '
+        'subset of items / fits is removed and the rest must equal its from-scratch rebuild. Non-trivial: history whose '
         'final world had >= 6 items; distinct by (parameter set, seed).')
 ASSUMPTIONS = ['tear-down stays outside the class of known finding K1 (an item removed while it is a recorded target '
                'keeps entries in the target maps: listed as K1)']
@@ -87,6 +89,87 @@ def _teardown(ctx, rep, pnames, n, label):
                 _reuse(rep, w, removed_items, seed, pname, h)
 
 
+def _teardown_restr(ctx, rep, n, label='teardown-restr'):
+    """The same emptiness walk on single-fit histories of the restriction / statistics generator (slot indices
+    including 0, group limits, charge sizes, drone groups, skill requirements, source switches, unloadable types):
+    the restriction and statistics registers are keyed by attributes the attribute-oriented universes lack."""
+    import types
+    from harness import restr_world as RW
+    from props import c03
+    base = ctx.sub_rnd(label).randrange(10 ** 9)
+    for k in range(n):
+        useed, hseed = base + k, k
+        w, done = None, []
+        for w, done, _ops, _errs in c03.run_history(useed, hseed, 14):
+            pass
+        if w is None:
+            continue
+        case = {'restr_universe': useed, 'history': hseed, 'ops': done}
+        removed = [i for i in w.placed() if type(i).__name__ != 'Character']
+        try:
+            R.teardown(types.SimpleNamespace(fits={1: w.fit}), random.Random(useed), True)
+        except C.InfraError:
+            raise
+        except Exception as e:
+            rep.violate('tear-down raised %s: %s' % (type(e).__name__, str(e)[:80]), case)
+            continue
+        w.fit._unsubscribe(w.spy, RW.Spy.MSGS)          # the harness's own listener
+        res = R.residue(w.ss) + R.residue(w.fit)
+        for it in removed:
+            if it._container is not None or it._is_loaded or it.attrs._MutableAttrMap__modified_attrs:
+                if type(it).__name__ == 'Charge' and it._container is not None:
+                    continue
+                res.append(('item', 'removed item %r keeps container/type/cache' % it))
+        rep.case(sig=('teardown-restr', useed) if len(removed) >= 5 else None, kind='teardown-restr')
+        if res:
+            rep.violate('residue after complete tear-down: %s' % (res[:2],), dict(case, oracle='emptiness-walk'))
+
+
+def _partial_removal(ctx, rep, pnames, n, label='partial'):
+    """Nothing that was removed influences what remains: after a history everything is read (so every value is
+    cached), a random subset of items / whole fits is removed (projectors aimed at the doomed items let go first -
+    K1), and the remaining world must equal its from-scratch rebuild."""
+    for pname in pnames:
+        p = F.PARAM_SETS[pname]
+        base = ctx.sub_rnd(label, pname).randrange(10 ** 9)
+        for k in range(n):
+            seed = base + k
+            rnd, w = WC.make_world(seed, p)
+            gen = W.OpGen(rnd, p)
+            done = []
+            try:
+                while len(done) < p['nsteps']:
+                    for op in gen.next(w):
+                        w.apply(op)
+                        done.append(op)
+                w.observe()
+                for _ in range(rnd.randint(1, 4)):
+                    # the generator's own removal ops (they carry the K1 pre-ops)
+                    for _try in range(30):
+                        ops = gen.next(w)
+                        if ops[-1][0] in ('remove', 'rack_remove', 'rack_remove_item', 'remove_fit', 'set_single'):
+                            break
+                    else:
+                        break
+                    for op in ops:
+                        w.apply(op)
+                        done.append(op)
+                n2, _ = W.rebuild(w)
+                va, ra = w.observe()
+                vb, rb = n2.observe()
+            except ZeroDivisionError:
+                continue
+            except Exception as e:
+                rep.violate('removal raised %s: %s' % (type(e).__name__, str(e)[:80]), F.case_of(seed, pname, done))
+                continue
+            rep.case(sig=('partial', pname, seed), kind='partial-removal-' + pname)
+            diff = F.equal_obs(va, vb)
+            if diff or ra != rb:
+                rep.violate('after removing part of the world the rest differs from its from-scratch rebuild '
+                            '(something removed still has influence): %r' % (diff[:3],),
+                            dict(F.case_of(seed, pname, done), oracle='mirror'))
+
+
 def _reuse(rep, w, items, seed, pname, h):
     from eos import Ship, Skill, Implant, Booster, Subsystem, Rig, Drone, FighterSquad, ModuleHigh, ModuleMid, ModuleLow
     w2 = W.World(w.unis, w.src if w.src is not None else 0)
@@ -140,6 +223,7 @@ def correspondence(ctx):
     rep = ctx.report
     rep.rules.append(RULE)
     _teardown(ctx, rep, ['basic', 'fleet', 'fleetheavy', 'projheavy', 'long', 'three-fits-decimal', 'pymods'], ctx.n(35, 700), 'teardown')
+    _teardown_restr(ctx, rep, ctx.n(150, 3000))
 
 
 def _k1_residue_witness(rep):
@@ -179,6 +263,7 @@ def _k1_residue_witness(rep):
 def oracle(ctx):
     # the emptiness walk itself runs inside `correspondence` (it needs the same histories)
     _k1_residue_witness(ctx.report)
+    _partial_removal(ctx, ctx.report, ['projheavy', 'fleetheavy', 'basic'], ctx.n(40, 600))
 
 
 def search(ctx, broken):
